@@ -220,12 +220,30 @@ func TestVP_C36_Malformed(t *testing.T) {
 }
 
 func TestVP_C36_RoundTrip(t *testing.T) {
-	st := vp.NewStats("C36", "roundtrip", "binary 0-4096 bytes x config 1-4096 bytes x destination absent / holding an earlier longer or shorter embedding / other bytes; non-trivial = binary or config itself ends with the magic / contains a trailer-like region, or sizes straddle 16/32-byte boundaries")
+	st := vp.NewStats("C36", "roundtrip", "binary and config sizes up to 4096 or around 4 KiB / 8 KiB / 12 000 bytes x destination absent / holding an earlier longer or shorter embedding / other bytes; non-trivial = binary or config itself ends with the magic / contains a trailer-like region, or sizes straddle 16/32-byte boundaries")
 	defer st.Flush()
 	dir := t.TempDir()
 	rapid.Check(t, func(t *rapid.T) {
-		bin := rapid.SliceOfN(rapid.Byte(), 0, 4096).Draw(t, "bin")
-		cfg := rapid.SliceOfN(rapid.Byte(), 1, 4096).Draw(t, "cfg")
+		// sizes: anything up to 4096, or right around the block sizes readers like to use
+		// (4 KiB, 8 KiB), for the binary and the configuration independently
+		size := func(label string, min int) int {
+			switch rapid.IntRange(0, 3).Draw(t, label+"Kind") {
+			case 0:
+				return rapid.IntRange(4096-40, 4096+40).Draw(t, label+"Near4k")
+			case 1:
+				return rapid.SampledFrom([]int{4080, 4081, 4095, 4096, 4097, 4112, 8176, 8192, 8193, 12000}).Draw(t, label+"Edge")
+			}
+			return rapid.IntRange(min, 4096).Draw(t, label+"Any")
+		}
+		bin := make([]byte, size("bin", 0))
+		cfg := make([]byte, size("cfg", 1))
+		fill := rapid.SliceOfN(rapid.Byte(), 1, 64).Draw(t, "fill")
+		for i := range bin {
+			bin[i] = fill[i%len(fill)] ^ byte(i>>8)
+		}
+		for i := range cfg {
+			cfg[i] = fill[(i+7)%len(fill)] ^ byte(i>>7)
+		}
 		tricky := rapid.IntRange(0, 5).Draw(t, "tricky")
 		class := "plain"
 		switch tricky {
